@@ -396,6 +396,51 @@ func generatedHostile() []seedFile {
 		20: objStm([]member{{10, ms("3")}, {11, ms("6 0 R")}, {12, ms("20 0 R")}, {13, "<< /Length 13 0 R >> stream\nno end"}}),
 	}, map[int][2]int{10: {20, 0}, 11: {20, 1}, 12: {20, 2}, 13: {20, 3}}))
 
+	// fonts with hostile embedded CMaps: wide multi-byte ranges, code space
+	// ranges which do not match the font's codec, many ranges just under the
+	// mapping budget, notdef ranges; as /ToUnicode of simple and composite
+	// fonts and as /Encoding of composite fonts
+	desc := "<< /Type /FontDescriptor /FontName /Hostile /Flags 4 /FontBBox [0 0 1000 1000] /ItalicAngle 0 /Ascent 800 /Descent -200 /CapHeight 700 /StemV 80 >>"
+	cidFont := "<< /Type /Font /Subtype /CIDFontType2 /BaseFont /Hostile /CIDSystemInfo << /Registry (Adobe) /Ordering (Identity) /Supplement 0 >> /FontDescriptor 12 0 R /DW 1000 /CIDToGIDMap /Identity >>"
+	for _, sh := range cmapShapes {
+		txt := []byte(sh.text())
+		objs := map[int]string{
+			1:  "<< /Type /Catalog /Pages 2 0 R >>",
+			2:  "<< /Type /Pages /Count 1 /Kids [ 3 0 R ] >>",
+			3:  "<< /Type /Page /Parent 2 0 R /MediaBox [0 0 200 200] /Contents 4 0 R /Resources << /Font << /F1 5 0 R /F2 6 0 R /F3 7 0 R /F4 8 0 R >> >> >>",
+			4:  streamObj("", []byte("BT /F1 12 Tf 10 100 Td (AB) Tj /F2 12 Tf (AB) Tj /F3 12 Tf (a) Tj /F4 12 Tf <00410042> Tj ET")),
+			10: streamObj(sh.streamDict(), txt),
+			11: cidFont, 12: desc,
+			13: streamObj("", []byte("500 0 d0 0 0 500 500 re f")),
+		}
+		name := "hostile-tounicode-" + sh.name + ".pdf"
+		if sh.cid {
+			// an embedded /Encoding CMap needs an embedded font program:
+			// library-written composite fonts with the CMap swapped in
+			for _, base := range []string{"lib-font-16-TrueTypeComposite.pdf", "lib-font-10-CFFComposite1.pdf"} {
+				for _, sf := range seeds {
+					if sf.Name != base {
+						continue
+					}
+					if data, err := swapEncodingCMap(sf.Data, sh); err == nil {
+						add("hostile-encoding-cmap-"+sh.name+"-"+strings.TrimSuffix(strings.SplitN(base, "-", 4)[3], ".pdf")+".pdf", data)
+					}
+				}
+			}
+			name = "hostile-encoding-cmap-" + sh.name + ".pdf"
+			objs[5] = "<< /Type /Font /Subtype /Type0 /BaseFont /Hostile /Encoding 10 0 R /DescendantFonts [ 11 0 R ] >>"
+			objs[6] = "<< /Type /Font /Subtype /Type0 /BaseFont /Hostile /Encoding 10 0 R /DescendantFonts [ 11 0 R ] /ToUnicode 10 0 R >>"
+			objs[7] = fontObj
+			objs[8] = "<< /Type /Font /Subtype /Type0 /BaseFont /Hostile-UCS /Encoding /Identity-H /DescendantFonts [ 11 0 R ] /ToUnicode 10 0 R >>"
+		} else {
+			objs[5] = "<< /Type /Font /Subtype /Type1 /BaseFont /Helvetica /FirstChar 65 /LastChar 66 /Widths [ 667 667 ] /ToUnicode 10 0 R >>"
+			objs[6] = "<< /Type /Font /Subtype /TrueType /BaseFont /Hostile /FirstChar 65 /LastChar 66 /Widths [ 600 600 ] /Encoding /WinAnsiEncoding /FontDescriptor 12 0 R /ToUnicode 10 0 R >>"
+			objs[7] = "<< /Type /Font /Subtype /Type3 /FontBBox [ 0 0 1000 1000 ] /FontMatrix [ 0.001 0 0 0.001 0 0 ] /CharProcs << /a 13 0 R >> /Encoding << /Type /Encoding /Differences [ 97 /a ] >> /FirstChar 97 /LastChar 97 /Widths [ 500 ] /ToUnicode 10 0 R >>"
+			objs[8] = "<< /Type /Font /Subtype /Type0 /BaseFont /Hostile /Encoding /Identity-H /DescendantFonts [ 11 0 R ] /ToUnicode 10 0 R >>"
+		}
+		add(name, classicFile(objs, ""))
+	}
+
 	// images: a valid 256x256 JPEG as image XObject, and the same data under
 	// filter chains in which DCTDecode is not the top filter and the filter
 	// above it rejects the decoded samples
@@ -767,7 +812,10 @@ func damageType1(data []byte) ([]byte, error) {
 		if tp := string(o.Value.Lookup("Type").Bytes); o.IsStream && (tp == "ObjStm" || tp == "XRef") {
 			continue
 		}
-		op := serial.Op{Gen: o.Gen, Value: o.Value.Without("Length")}
+		op := serial.Op{Gen: o.Gen, Value: o.Value}
+		if o.IsStream {
+			op.Value = o.Value.Without("Length")
+		}
 		if o.IsStream {
 			raw := o.RawStream
 			if _, ok := o.Value.Get("Length1"); ok {
@@ -791,6 +839,59 @@ func damageType1(data []byte) ([]byte, error) {
 	if !found {
 		return nil, fmt.Errorf("no FontFile stream found")
 	}
+	for _, k := range []string{"Root", "Info", "ID"} {
+		if v, ok := f.Trailer.Get(k); ok {
+			rev.Trailer = append(rev.Trailer, syntax.Entry{Key: []byte(k), Val: v})
+		}
+	}
+	res, err := serial.Write([]serial.Revision{rev}, serial.Options{Version: f.Version})
+	if err != nil {
+		return nil, err
+	}
+	return res.Data, nil
+}
+
+// swapEncodingCMap rebuilds a library-written document so that its Type 0
+// font uses an embedded /Encoding CMap of the given shape (and the same data
+// as /ToUnicode).
+func swapEncodingCMap(data []byte, sh cmapShape) ([]byte, error) {
+	f, err := strict.Parse(data)
+	if err != nil {
+		return nil, err
+	}
+	rev := serial.Revision{Kind: serial.Table, Ops: map[uint32]serial.Op{}}
+	var max uint32
+	for _, num := range f.Nums() {
+		if num > max {
+			max = num
+		}
+	}
+	cm := max + 1
+	found := false
+	for _, num := range f.Nums() {
+		o := f.Objects[num]
+		if tp := string(o.Value.Lookup("Type").Bytes); o.IsStream && (tp == "ObjStm" || tp == "XRef") {
+			continue
+		}
+		op := serial.Op{Gen: o.Gen, Value: o.Value}
+		if o.IsStream {
+			op.Value = o.Value.Without("Length")
+		}
+		if string(o.Value.Lookup("Subtype").Bytes) == "Type0" && !o.IsStream {
+			op.Value = op.Value.With("Encoding", syntax.RefTo(cm, 0)).With("ToUnicode", syntax.RefTo(cm, 0))
+			found = true
+		}
+		if o.IsStream {
+			op.Stream = &serial.StreamSpec{Data: o.RawStream}
+		}
+		rev.Ops[num] = op
+	}
+	if !found {
+		return nil, fmt.Errorf("no Type 0 font found")
+	}
+	rev.Ops[cm] = serial.Op{Value: syntax.D("Type", syntax.N("CMap"), "CMapName", syntax.N("Hostile-H"),
+		"CIDSystemInfo", syntax.D("Registry", syntax.S([]byte("Adobe")), "Ordering", syntax.S([]byte("Identity")), "Supplement", syntax.I(0))),
+		Stream: &serial.StreamSpec{Data: []byte(sh.text())}}
 	for _, k := range []string{"Root", "Info", "ID"} {
 		if v, ok := f.Trailer.Get(k); ok {
 			rev.Trailer = append(rev.Trailer, syntax.Entry{Key: []byte(k), Val: v})
